@@ -66,12 +66,13 @@ class SBool(SVal):
 class SInt(SVal):
     """Symbolic int. `lz`: value is a multiple of 2**lz.  `nb`: if not None, 0 <= value < 2**nb (proved syntactically)."""
 
-    __slots__ = ("e", "lz", "nb", "be")
+    __slots__ = ("e", "lz", "nb", "be", "sbe")
 
     def __init__(self, e, lz=0, nb=None, be=None):
         self.e = e
         self.lz = lz
         self.nb = nb
+        self.sbe = None  # two's complement octets of a signed struct field (same purpose as `be`)
         # optional big-endian octet decomposition: value == sum(be[i] * 256**(len-1-i)), each 0..255
         # (kept so that pack(unpack(x)) and shifts/masks by whole octets need no div/mod reasoning)
         self.be = be
